@@ -8,6 +8,7 @@
     sh:expression / sh:rule removed.  shacl_rules() with function calls vs the reference rule engine.
 (A) the same runs vs Impl (tables: target solutions, function results by named pre-bindings, sh:sparql solutions).
 """
+import os
 import random
 
 import pyshacl
@@ -214,6 +215,8 @@ def rules_then_validate(out, sg, dg, case):
                 norules.add(t)
         two = vcase.run_code(norules, expanded, {"advanced": True})
     out.count("rules_then_validate:" + (one[1] if one[0] == "err" else "report"))
+    if one[0] == "err" and one[1].startswith("raw:") and os.environ.get("VERIF_DEBUG"):
+        open("/tmp/c17_raw.txt", "a").write(case["shapes_ttl"] + "\n=====\n")
     if one[0] != two[0] or (one[0] == "err" and one[1].split(":")[0] != two[1].split(":")[0]):
         out.b_fail.append({"signature": "C17:rules-then-validate:outcome-differs", "case": case, "one_run": one[:2], "two_steps": two[:2]})
     elif one[0] == "ok":
@@ -237,7 +240,7 @@ def stale_function_cases():
         if k % 2:
             sg.add((fn, SH.returnType, XSD.boolean)); sg.add((fn, SH.ask, Literal("ASK { $op1 ex:mark true }")))
         else:
-            sg.add((fn, SH.returnType, XSD.boolean)); sg.add((fn, SH.select, Literal("SELECT (EXISTS { $op1 ex:mark true } AS ?r) WHERE {}")))
+            sg.add((fn, SH.returnType, XSD.boolean)); sg.add((fn, SH.select, Literal("SELECT ?r WHERE { BIND (EXISTS { $op1 ex:mark true } AS ?r) }")))
         S = EX["SF%d" % k]
         sg.add((S, RDF.type, SH.NodeShape)); sg.add((S, SH.targetClass, EX.C0))
 
